@@ -108,8 +108,12 @@ def classify(rej, trace_lines):
         if any(e.get('ev') == 'CloseRet' and e['i'] < line['i'] for e in evs):
             what += ':afterCloseRet'
             # when was the frame read? (hook events read.frame / close.closed)
-            reads = [e['i'] for e in evs if e.get('ev') == 'P' and e.get('pt') == 'read.frame' and e.get('b') == 1 and e.get('a') == 0 and e['i'] < line['i']]
+            # (the handler's own frame: the read.frame event that directly precedes the read.spawn event carrying
+            #  this handler's sequence number; without a spawn event, the last call frame read before the handler)
             closed = [e['i'] for e in evs if e.get('ev') == 'P' and e.get('pt') == 'close.closed']
+            spawn = [e['i'] for e in evs if e.get('ev') == 'P' and e.get('pt') == 'read.spawn' and e.get('a') == line.get('seq') and e['i'] < line['i']]
+            upto = spawn[-1] if spawn else line['i']
+            reads = [e['i'] for e in evs if e.get('ev') == 'P' and e.get('pt') == 'read.frame' and e.get('b') == 1 and e.get('a') == 0 and e['i'] < upto]
             if reads and closed:
                 what += ':readWhileClosing' if reads[-1] < closed[0] else ':readAfterClosed'
     if ev == 'DiscHook':
